@@ -112,53 +112,11 @@ Proof.
   - intros x Hx Hxn Hw. apply Hc. rewrite <- (Huniq x Hx Hxn). assumption.
 Qed.
 
-(* ---------- connect ---------- *)
+(* ---------- pins that keep their meaning ---------- *)
 Lemma pin_ok_same ms m m' pr :
   m_ports m' = m_ports m -> m_insts m' = m_insts m -> pin_ok ms m' pr <-> pin_ok ms m pr.
 Proof.
   intros Hp Hi. destruct pr; cbn; unfold port_bit; rewrite ?Hp, ?Hi; tauto.
-Qed.
-
-Lemma connect_spec pr c k m m' :
-  connect pr c k m = Ok m' ->
-  NoDup (map c_name (m_cables m)) ->
-  ~ In pr (all_wire_pins m) /\
-  m_name m' = m_name m /\ m_ports m' = m_ports m /\ m_insts m' = m_insts m /\
-  m_orphans m' = m_orphans m /\
-  NoDup (map c_name (m_cables m')) /\
-  Permutation (all_wire_pins m') (pr :: all_wire_pins m).
-Proof.
-  unfold connect. destruct (connected m pr) eqn:Ec; [discriminate|]. intros H Hnd. inversion H; subst m'. clear H.
-  assert (Hnc : ~ In pr (all_wire_pins m)).
-  { intro Hin. apply connected_In in Hin. congruence. }
-  unfold set_cables. cbn [m_name m_ports m_insts m_orphans m_cables]. repeat split; auto.
-  - destruct (find_cable c (m_cables m)) eqn:E.
-    + rewrite upd_cable_names. assumption.
-    + rewrite map_app. cbn [map c_name]. apply NoDup_app_iff. repeat split; auto.
-      * constructor; [intros []|constructor].
-      * intros x Hx [<-|[]]. apply find_cable_None in E. contradiction.
-  - unfold all_wire_pins. cbn [m_cables m_orphans]. rewrite !cable_pins_app.
-    destruct (find_cable c (m_cables m)) eqn:E.
-    + rewrite (upd_cable_perm c _ _ [pr]); auto.
-      * eapply find_cable_some_in; eauto.
-      * intro ws. apply add_to_wire_perm.
-    + rewrite cable_pins_app. unfold cable_pins at 2. cbn [flat_map c_wires]. rewrite app_nil_r.
-      rewrite (add_to_wire_perm k pr []). cbn [concat app].
-      rewrite <- app_assoc. symmetry. cbn [app]. apply Permutation_middle.
-Qed.
-
-Lemma connect_WFc ms pr c k m m' :
-  connect pr c k m = Ok m' -> WFc ms m -> pin_ok ms m pr -> WFc ms m'.
-Proof.
-  intros H [H1 H2 H3 H4 H5] Hok.
-  destruct (connect_spec _ _ _ _ _ H H5) as [Hnc [Hn [Hp [Hi [Ho [Hc Hperm]]]]]].
-  constructor.
-  - intros pr' Hin. apply (pin_ok_same ms m m'); auto.
-    apply (Permutation_in _ Hperm) in Hin. destruct Hin as [<-|Hin]; auto.
-  - apply (Permutation_NoDup (Permutation_sym Hperm)). constructor; assumption.
-  - rewrite Hi. assumption.
-  - rewrite Hp. assumption.
-  - assumption.
 Qed.
 
 (* ---------- ensure_model ---------- *)
@@ -665,31 +623,6 @@ Proof.
   - rewrite find_cable_app, H. eauto.
 Qed.
 
-Lemma remove_nth_perm {A} i (ws : list (list A)) :
-  Permutation (nth i ws [] ++ concat (remove_nth i ws)) (concat ws).
-Proof.
-  revert ws. induction i as [|i IH]; intros [|w ws]; cbn; try reflexivity.
-  rewrite <- (IH ws). rewrite !app_assoc. apply Permutation_app_tail. apply Permutation_app_comm.
-Qed.
-
-Lemma nth_remove_nth_lt {A} lo hi (ws : list A) d : lo < hi -> nth lo (remove_nth hi ws) d = nth lo ws d.
-Proof.
-  revert hi ws. induction lo as [|lo IH]; intros [|hi] [|w ws] H; cbn; try reflexivity; try lia.
-  apply IH. lia.
-Qed.
-
-Lemma remove_two_perm {A} i j (ws : list (list A)) : i <> j ->
-  Permutation (nth i ws [] ++ nth j ws [] ++ concat (remove_nth (Nat.min i j) (remove_nth (Nat.max i j) ws)))
-              (concat ws).
-Proof.
-  intro Hne. rewrite <- (remove_nth_perm (Nat.max i j) ws).
-  rewrite <- (remove_nth_perm (Nat.min i j) (remove_nth (Nat.max i j) ws)).
-  rewrite nth_remove_nth_lt by lia.
-  destruct (Nat.lt_ge_cases i j).
-  - rewrite Nat.max_r, Nat.min_l by lia. rewrite !app_assoc. apply Permutation_app_tail. apply Permutation_app_comm.
-  - rewrite Nat.max_l, Nat.min_r by lia. reflexivity.
-Qed.
-
 (* removing pins [extra ws] from the unique cable named c *)
 Lemma upd_cable_rm_perm c f (extra : list wire -> list pinref) cs x :
   NoDup (map c_name cs) -> find_cable c cs = Some x ->
@@ -717,66 +650,190 @@ Qed.
 Lemma cable_pins_snoc cs x : cable_pins (cs ++ [x]) = cable_pins cs ++ concat (c_wires x).
 Proof. rewrite cable_pins_app. unfold cable_pins at 2. cbn. rewrite app_nil_r. reflexivity. Qed.
 
-Lemma do_conn_spec a i b j m m' :
-  do_conn a i b j m = Ok m' -> NoDup (map c_name (m_cables m)) ->
+(* ---------- wires addressed by (cable, position): set_wire ---------- *)
+Lemma nth_upd_nth_other {A} k (f : A -> A) l k' d : k' <> k -> nth k' (upd_nth k f l) d = nth k' l d.
+Proof.
+  revert k k'. induction l as [|x l IH]; intros [|k] [|k'] H; cbn; try reflexivity; try congruence.
+  apply IH. congruence.
+Qed.
+
+Lemma wire_at_set_wire_other c k f cs c' k' :
+  (c' <> c \/ k' <> k) -> wire_at c' k' (set_wire c k f cs) = wire_at c' k' cs.
+Proof.
+  intro H. unfold wire_at, set_wire. rewrite find_cable_upd. destruct (find_cable c' cs) as [x|] eqn:E; [|reflexivity].
+  destruct (str_eqb (c_name x) c) eqn:Ec; [|reflexivity]. cbn [c_wires].
+  apply str_eqb_spec in Ec. apply find_cable_In in E as [_ E]. destruct H as [H|H]; [congruence|].
+  apply nth_upd_nth_other. exact H.
+Qed.
+
+Lemma upd_nth_nil_perm {A} k (ws : list (list A)) :
+  Permutation (nth k ws [] ++ concat (upd_nth k (fun _ => []) ws)) (concat ws).
+Proof.
+  revert ws. induction k as [|k IH]; intros [|w ws]; cbn; try reflexivity.
+  rewrite <- (IH ws). rewrite !app_assoc. apply Permutation_app_tail. apply Permutation_app_comm.
+Qed.
+
+(* emptying wire (c, k): its pins leave the cable *)
+Lemma set_wire_nil_perm c k cs :
+  NoDup (map c_name cs) ->
+  Permutation (wire_at c k cs ++ cable_pins (set_wire c k (fun _ => []) cs)) (cable_pins cs).
+Proof.
+  intro Hnd. unfold wire_at, set_wire. destruct (find_cable c cs) as [x|] eqn:E.
+  - apply (upd_cable_rm_perm c (upd_nth k (fun _ => [])) (fun ws => nth k ws []) cs x Hnd E). apply upd_nth_nil_perm.
+  - apply find_cable_None in E. rewrite (upd_cable_notin _ _ _ E). reflexivity.
+Qed.
+
+Lemma upd_nth_app_concat {A} k (w : list A) (ws : list (list A)) :
+  k < length ws -> Permutation (concat (upd_nth k (fun w1 => w1 ++ w) ws)) (w ++ concat ws).
+Proof.
+  revert ws. induction k as [|k IH]; intros [|w0 ws] H; cbn in *; try lia.
+  - rewrite (app_assoc w w0). apply Permutation_app_tail. apply Permutation_app_comm.
+  - rewrite IH by lia. rewrite !app_assoc. apply Permutation_app_tail. apply Permutation_app_comm.
+Qed.
+
+Lemma upd_nth_beyond {A} k (f : A -> A) l : length l <= k -> upd_nth k f l = l.
+Proof. revert k. induction l as [|x l IH]; intros [|k] H; cbn in *; try reflexivity; try lia. f_equal. apply IH. lia. Qed.
+
+Lemma upd_cable_perm_at c f cs x extra :
+  NoDup (map c_name cs) -> find_cable c cs = Some x ->
+  Permutation (concat (f (c_wires x))) (extra ++ concat (c_wires x)) ->
+  Permutation (cable_pins (upd_cable c f cs)) (extra ++ cable_pins cs).
+Proof.
+  intros Hnd Hf Hp. induction cs as [|y cs IH]; [discriminate|].
+  inversion Hnd as [|? ? Hn Hd]; subst. cbn [upd_cable map]. fold (upd_cable c f cs).
+  unfold find_cable in Hf. cbn in Hf. destruct (str_eqb (c_name y) c) eqn:E.
+  - inversion Hf; subst y. apply str_eqb_spec in E. subst c.
+    rewrite (upd_cable_notin _ _ _ Hn). rewrite !cable_pins_cons. cbn [c_wires]. rewrite Hp, app_assoc. reflexivity.
+  - fold (find_cable c cs) in Hf. rewrite !cable_pins_cons. rewrite (IH Hd Hf).
+    rewrite !app_assoc. apply Permutation_app_tail. apply Permutation_app_comm.
+Qed.
+
+Lemma find_cable_unique cs x :
+  NoDup (map c_name cs) -> In x cs -> find_cable (c_name x) cs = Some x.
+Proof.
+  unfold find_cable. induction cs as [|y cs IH]; cbn; [tauto|].
+  intros Hnd [->|Hin].
+  - rewrite str_eqb_refl. reflexivity.
+  - inversion Hnd; subst. destruct (str_eqb (c_name y) (c_name x)) eqn:E.
+    + apply str_eqb_spec in E. exfalso. apply H1. rewrite E. apply in_map. assumption.
+    + auto.
+Qed.
+
+(* appending [w] to wire (c, k): the pins arrive if that wire exists, otherwise nothing changes *)
+Lemma set_wire_app_perm c k w cs :
+  NoDup (map c_name cs) ->
+  Permutation (cable_pins (set_wire c k (fun w1 => w1 ++ w) cs)) (w ++ cable_pins cs) \/
+  set_wire c k (fun w1 => w1 ++ w) cs = cs.
+Proof.
+  intro Hnd. unfold set_wire. destruct (find_cable c cs) as [x|] eqn:E.
+  - destruct (Nat.lt_ge_cases k (length (c_wires x))) as [Hk|Hk].
+    + left. apply (upd_cable_perm_at c _ cs x w Hnd E). apply upd_nth_app_concat. exact Hk.
+    + right. unfold upd_cable. rewrite <- (map_id cs) at 2. apply map_ext_in. intros y Hy.
+      destruct (str_eqb (c_name y) c) eqn:Ey; [|reflexivity]. apply str_eqb_spec in Ey.
+      assert (y = x).
+      { pose proof (find_cable_unique cs y Hnd Hy) as Hu. rewrite Ey in Hu. congruence. }
+      subst y. rewrite upd_nth_beyond by exact Hk. destruct x; reflexivity.
+  - right. apply find_cable_None in E. apply upd_cable_notin. exact E.
+Qed.
+
+Lemma set_wire_names c k f cs : map c_name (set_wire c k f cs) = map c_name cs.
+Proof. apply upd_cable_names. Qed.
+
+Lemma nb_eqb_true x y : nb_eqb x y = true <-> x = y.
+Proof.
+  destruct x as [c k], y as [c' k']. unfold nb_eqb. cbn [fst snd]. rewrite andb_true_iff. split.
+  - intros [H1 H2]. apply str_eqb_spec in H1. apply Nat.eqb_eq in H2. congruence.
+  - intro H. inversion H. rewrite str_eqb_refl, Nat.eqb_refl. auto.
+Qed.
+
+Lemma nb_eqb_false x y : nb_eqb x y = false <-> x <> y.
+Proof.
+  split.
+  - intros H E. apply nb_eqb_true in E. congruence.
+  - intro H. destruct (nb_eqb x y) eqn:E; [|reflexivity]. apply nb_eqb_true in E. contradiction.
+Qed.
+
+(* .conn keeps every pin that is on a wire on a wire, once (a wire named by a stale table entry could
+   in principle be missing: then pins would leave; [extra]) *)
+Lemma do_conn_spec al a i b j m m' :
+  do_conn al a i b j m = Ok m' -> NoDup (map c_name (m_cables m)) ->
   m_name m' = m_name m /\ m_ports m' = m_ports m /\ m_insts m' = m_insts m /\ m_orphans m' = m_orphans m /\
   NoDup (map c_name (m_cables m')) /\
-  Permutation (all_wire_pins m') (all_wire_pins m).
+  exists extra, Permutation (extra ++ all_wire_pins m') (all_wire_pins m).
 Proof.
   unfold do_conn. intros H Hnd.
   set (cs1 := ensure_wire a i (m_cables m)) in *. set (cs2 := ensure_wire b j cs1) in *.
-  set (nm := merge_name a i b j) in *.
-  destruct (find_cable nm cs2) eqn:Enm; [discriminate|].
-  destruct (str_eqb a b && Nat.eqb i j) eqn:Esame; [discriminate|].
-  inversion H; subst m'. clear H. cbn [set_cables m_name m_ports m_insts m_orphans m_cables].
+  set (x := merged_into al (a, i)) in *. set (y := merged_into al (b, j)) in *.
   assert (Hnd2 : NoDup (map c_name cs2)) by (apply ensure_wire_names, ensure_wire_names; assumption).
   assert (Hp2 : cable_pins cs2 = cable_pins (m_cables m)).
   { unfold cs2, cs1. rewrite !ensure_wire_pins. reflexivity. }
-  destruct (ensure_wire_finds a i (m_cables m)) as [xa0 Hxa0]. fold cs1 in Hxa0.
-  destruct (ensure_wire_keeps b j cs1 a xa0 Hxa0) as [xa Hxa]. fold cs2 in Hxa.
-  destruct (ensure_wire_finds b j cs1) as [xb Hxb]. fold cs2 in Hxb.
-  apply find_cable_None in Enm.
-  assert (Hna : nm <> a).
-  { intro E. apply Enm. rewrite E. eapply find_cable_some_in; eauto. }
-  assert (Hnb : nm <> b).
-  { intro E. apply Enm. rewrite E. eapply find_cable_some_in; eauto. }
-  repeat split; auto.
-  - (* names *)
-    assert (Hn3 : NoDup (map c_name (cs2 ++ [mkCable nm [wire_at a i cs2 ++ wire_at b j cs2]]))).
-    { rewrite map_app. cbn. apply NoDup_app_iff. repeat split; auto.
-      - constructor; [intros []|constructor].
-      - intros x Hx [<-|[]]. contradiction. }
-    destruct (str_eqb a b); rewrite ?upd_cable_names; assumption.
-  - unfold all_wire_pins. cbn [set_cables m_cables m_orphans]. rewrite !cable_pins_app.
-    apply Permutation_app_tail. rewrite <- Hp2.
-    unfold wire_at. rewrite Hxa, Hxb.
-    destruct (str_eqb a b) eqn:Eab.
-    + apply str_eqb_spec in Eab. subst b. assert (xb = xa) by congruence. subst xb.
-      assert (Hij : i <> j).
-      { intro E. subst j. cbn in Esame. rewrite Nat.eqb_refl in Esame. discriminate. }
-      rewrite upd_cable_snoc by (cbn; assumption). rewrite cable_pins_snoc. cbn [c_wires concat]. rewrite app_nil_r.
-      rewrite <- (upd_cable_rm_perm a (fun ws => remove_nth (Nat.min i j) (remove_nth (Nat.max i j) ws))
-                    (fun ws => nth i ws [] ++ nth j ws []) cs2 xa Hnd2 Hxa).
-      * rewrite Permutation_app_comm. reflexivity.
-      * intro ws. rewrite <- app_assoc. apply remove_two_perm. assumption.
-    + apply str_eqb_false in Eab.
-      rewrite upd_cable_snoc by (cbn; assumption). rewrite upd_cable_snoc by (cbn; assumption).
-      rewrite cable_pins_snoc. cbn [c_wires concat]. rewrite app_nil_r.
-      assert (Hxb' : find_cable b (upd_cable a (remove_nth i) cs2) = Some xb).
-      { rewrite find_cable_upd, Hxb. pose proof (find_cable_In _ _ _ Hxb) as [_ Hn].
-        destruct (str_eqb (c_name xb) a) eqn:E; [|reflexivity]. apply str_eqb_spec in E. congruence. }
-      assert (Hnd3 : NoDup (map c_name (upd_cable a (remove_nth i) cs2))) by (rewrite upd_cable_names; assumption).
-      rewrite <- (upd_cable_rm_perm a (remove_nth i) (fun ws => nth i ws []) cs2 xa Hnd2 Hxa (remove_nth_perm i)).
-      rewrite <- (upd_cable_rm_perm b (remove_nth j) (fun ws => nth j ws []) _ xb Hnd3 Hxb' (remove_nth_perm j)).
-      rewrite Permutation_app_comm, app_assoc. reflexivity.
+  destruct (nb_eqb x y) eqn:Exy; inversion H; subst m'; clear H;
+    cbn [set_cables m_name m_ports m_insts m_orphans m_cables]; repeat split; auto.
+  - exists []. unfold all_wire_pins. cbn [set_cables m_cables m_orphans app]. rewrite !cable_pins_app, Hp2. reflexivity.
+  - rewrite !set_wire_names. exact Hnd2.
+  - apply nb_eqb_false in Exy.
+    set (w := wire_at (fst y) (snd y) cs2) in *.
+    set (cs3 := set_wire (fst x) (snd x) (fun w1 => w1 ++ w) cs2) in *.
+    assert (Hnd3 : NoDup (map c_name cs3)) by (unfold cs3; rewrite set_wire_names; exact Hnd2).
+    assert (Hw : wire_at (fst y) (snd y) cs3 = w).
+    { unfold cs3. apply wire_at_set_wire_other. destruct x as [xc xk], y as [yc yk]. cbn [fst snd] in *.
+      destruct (str_eqb yc xc) eqn:E1; [|left; apply str_eqb_false; exact E1]. apply str_eqb_spec in E1. subst yc.
+      right. intro E. subst yk. apply Exy. reflexivity. }
+    pose proof (set_wire_nil_perm (fst y) (snd y) cs3 Hnd3) as P1. rewrite Hw in P1.
+    unfold all_wire_pins. cbn [set_cables m_cables m_orphans]. rewrite !cable_pins_app. rewrite <- Hp2.
+    destruct (set_wire_app_perm (fst x) (snd x) w cs2 Hnd2) as [P2|P2]; fold cs3 in P2.
+    + exists []. cbn [app]. apply Permutation_app_tail.
+      apply (Permutation_app_inv_l w). rewrite P1, P2. reflexivity.
+    + exists w. rewrite app_assoc. apply Permutation_app_tail. rewrite P1, P2. reflexivity.
 Qed.
 
-Lemma do_conn_WFc ms a i b j m m' : do_conn a i b j m = Ok m' -> WFc ms m -> WFc ms m'.
+Lemma do_conn_WFc ms al a i b j m m' : do_conn al a i b j m = Ok m' -> WFc ms m -> WFc ms m'.
 Proof.
-  intros H [W1 W2 W3 W4 W5]. destruct (do_conn_spec _ _ _ _ _ _ H W5) as [Hn [Hp [Hi [Ho [Hc Hperm]]]]].
+  intros H [W1 W2 W3 W4 W5]. destruct (do_conn_spec _ _ _ _ _ _ _ H W5) as [Hn [Hp [Hi [Ho [Hc [extra Hperm]]]]]].
   constructor.
-  - intros pr Hpr. apply (pin_ok_same ms m m'); auto. apply W1. eapply Permutation_in; eauto.
-  - apply (Permutation_NoDup (Permutation_sym Hperm)). assumption.
+  - intros pr Hpr. apply (pin_ok_same ms m m'); auto. apply W1. eapply Permutation_in; [exact Hperm|].
+    apply in_app_iff. auto.
+  - apply (Permutation_NoDup (Permutation_sym Hperm)) in W2. apply NoDup_app_iff in W2. tauto.
+  - rewrite Hi. assumption.
+  - rewrite Hp. assumption.
+  - assumption.
+Qed.
+
+(* ---------- connect_to: connect through the table of merged wires ---------- *)
+Lemma connect_to_spec al pr c k m m' :
+  connect_to al pr c k m = Ok m' ->
+  NoDup (map c_name (m_cables m)) ->
+  ~ In pr (all_wire_pins m) /\
+  m_name m' = m_name m /\ m_ports m' = m_ports m /\ m_insts m' = m_insts m /\
+  m_orphans m' = m_orphans m /\
+  NoDup (map c_name (m_cables m')) /\
+  (Permutation (all_wire_pins m') (pr :: all_wire_pins m) \/ all_wire_pins m' = all_wire_pins m).
+Proof.
+  unfold connect_to. destruct (connected m pr) eqn:Ec; [discriminate|]. intros H Hnd. inversion H; subst m'. clear H.
+  assert (Hnc : ~ In pr (all_wire_pins m)).
+  { intro Hin. apply connected_In in Hin. congruence. }
+  set (t := merged_into al (c, k)). set (cs := ensure_wire c k (m_cables m)).
+  assert (Hnd2 : NoDup (map c_name cs)) by (apply ensure_wire_names; assumption).
+  unfold set_cables. cbn [m_name m_ports m_insts m_orphans m_cables]. repeat split; auto.
+  - rewrite upd_cable_names. exact Hnd2.
+  - unfold all_wire_pins. cbn [m_cables m_orphans]. rewrite !cable_pins_app.
+    rewrite <- (ensure_wire_pins c k (m_cables m)). fold cs.
+    destruct (in_dec (list_eq_dec N.eq_dec) (fst t) (map c_name cs)) as [Hin|Hin].
+    + left. rewrite (upd_cable_perm (fst t) _ cs [pr] Hnd2 Hin); [reflexivity|]. intro ws. apply add_to_wire_perm.
+    + right. rewrite (upd_cable_notin _ _ _ Hin). reflexivity.
+Qed.
+
+Lemma connect_to_WFc ms al pr c k m m' :
+  connect_to al pr c k m = Ok m' -> WFc ms m -> pin_ok ms m pr -> WFc ms m'.
+Proof.
+  intros H [H1 H2 H3 H4 H5] Hok.
+  destruct (connect_to_spec _ _ _ _ _ _ H H5) as [Hnc [Hn [Hp [Hi [Ho [Hc Hperm]]]]]].
+  constructor.
+  - intros pr' Hin. apply (pin_ok_same ms m m'); auto.
+    destruct Hperm as [Hperm|Heq]; [|rewrite Heq in Hin; auto].
+    apply (Permutation_in _ Hperm) in Hin. destruct Hin as [<-|Hin]; auto.
+  - destruct Hperm as [Hperm|Heq]; [|rewrite Heq; assumption].
+    apply (Permutation_NoDup (Permutation_sym Hperm)). constructor; assumption.
   - rewrite Hi. assumption.
   - rewrite Hp. assumption.
   - assumption.
